@@ -1,0 +1,8 @@
+//go:build !verif
+
+package pubsub
+
+import "context"
+
+func verifAt(context.Context, string, ...any) {}
+func verifSig(string, ...any)                 {}
